@@ -301,6 +301,70 @@ def _vm_wingbox(s, nodes, wb, disp):
     return np.array(p.get_val("vonmises"))
 
 
+@oracle("C15", "wingbox_section_invariants")
+def c15_wingbox_section(rng, tier):
+    """relations the section properties of a wingbox element obey whatever the airfoil data: geometric similarity (all lengths
+    scaled by k), the upside-down section (top and bottom exchanged), a symmetric section (neutral axis on the chord line), and
+    refinement of the airfoil polygon by collinear points (the polygon, hence every integral over it, is unchanged)"""
+    from openaerostruct.structures.section_properties_wingbox import SectionPropertiesWingbox
+    from .specs import _airfoil
+    nx, ny = _pick_size(rng, tier)
+    s = gen.base_surface(rng, nx, ny, bool(rng.integers(2)), fem="wingbox")
+    wb = _airfoil(rng)
+    ne = ny - 1
+    sc = rng.uniform(1.0, 6.0, size=ne)
+    inp = dict(streamwise_chords=sc, fem_chords=sc * rng.uniform(0.75, 1.0, size=ne),
+               fem_twists=rng.choice([0.0, 1.0]) * rng.uniform(-0.12, 0.12, size=ne),
+               spar_thickness=rng.uniform(3e-3, 2e-2, size=ne), skin_thickness=rng.uniform(3e-3, 2e-2, size=ne),
+               t_over_c=rng.uniform(0.08, 0.16, size=ne))
+    names = ["A", "A_enc", "A_int", "Iy", "Qz", "Iz", "J", "htop", "hbottom", "hfront", "hrear"]
+
+    def run(wbd, inputs):
+        sd = dict(s); sd.update(wbd)
+        pr = comp_problem(SectionPropertiesWingbox(surface=sd), inputs)
+        return {k: np.array(pr.get_val(k), dtype=float) for k in names}
+
+    out = []
+    base = run(wb, inp)
+    # 1. geometric similarity
+    k = float(rng.uniform(0.3, 3.0))
+    sim = dict(inp)
+    for key in ("streamwise_chords", "fem_chords", "spar_thickness", "skin_thickness"):
+        sim[key] = inp[key] * k
+    r = run(wb, sim)
+    for key, pw in (("A", 2), ("A_enc", 2), ("A_int", 2), ("Qz", 3), ("Iy", 4), ("Iz", 4), ("J", 4), ("hfront", 1), ("hrear", 1)):
+        if relerr(r[key], k ** pw * base[key]) > 1e-9:
+            out.append(_fail("section property %s does not scale with k^%d under geometric similarity" % (key, pw), r[key], k ** pw * base[key], k=k))
+    # 2. upside-down section (untwisted): top and bottom exchange their roles
+    flat = dict(inp); flat["fem_twists"] = np.zeros(ne)
+    b0 = run(wb, flat)
+    ud = dict(wb); ud["data_y_upper"] = -wb["data_y_lower"]; ud["data_y_lower"] = -wb["data_y_upper"]
+    r = run(ud, flat)
+    for key in ("A", "A_enc", "A_int", "Iy", "Iz", "J", "hfront", "hrear"):
+        if relerr(r[key], b0[key]) > 1e-9:
+            out.append(_fail("section property %s changes when the section is turned upside down" % key, r[key], b0[key]))
+    if relerr(r["htop"], b0["hbottom"]) > 1e-9 or relerr(r["hbottom"], b0["htop"]) > 1e-9:
+        out.append(_fail("htop / hbottom are not exchanged when the section is turned upside down", [r["htop"], r["hbottom"]], [b0["hbottom"], b0["htop"]]))
+    # 3. symmetric section: neutral axis on the chord line
+    symd = dict(wb); symd["data_y_lower"] = -wb["data_y_upper"]
+    r = run(symd, flat)
+    if relerr(r["htop"], r["hbottom"]) > 1e-9:
+        out.append(_fail("symmetric untwisted section: htop != hbottom", r["htop"], r["hbottom"]))
+    # 4. collinear refinement of the polygon (mid-points inserted on every segment of both skins)
+    def refine(v):
+        v = np.asarray(v, dtype=float); m = 0.5 * (v[:-1] + v[1:])
+        o = np.empty(2 * v.size - 1); o[0::2] = v; o[1::2] = m
+        return o
+    ref = {kk: (refine(vv) if kk.startswith("data_") else vv) for kk, vv in wb.items()}
+    r = run(ref, inp)
+    # (Iz is not in this list: the strip formula of the code is an approximation by the authors, not the exact integral over the
+    #  segment, so it is not additive under subdivision; the property takes the section properties as given)
+    for key in ("A", "A_enc", "A_int", "Iy", "Qz", "J", "hfront", "hrear"):
+        if relerr(r[key], base[key]) > 1e-9:
+            out.append(_fail("section property %s changes when collinear points are inserted into the airfoil polygon" % key, r[key], base[key]))
+    return out
+
+
 @oracle("C15", "von_mises_invariants")
 def c15_vm(rng, tier):
     nx, ny = _pick_size(rng, tier)
